@@ -24,6 +24,12 @@ ASSUMPTIONS = ["one fresh interpreter per (termination mode, argument, position,
                "argparse, pdb, timeit), installed third-party packages when /venv has them (pytest, hypothesis, coverage, setuptools), and "
                "EMPTY stand-in modules named like widespread packages (sphinx, IPython, numpy, nose, docutils, tox) on a scratch "
                "PYTHONPATH entry; the outcome must be that of the same script without them (the model knows nothing about sys.modules)",
+               "exit arguments of non-int types (table NONINT): strings of digits ('0', '00', ' 0\\n', '+0', '0_0', a non-ASCII digit, '7'), "
+               "bytes, floats (0.25, -0.5, 1.5, -0.0, inf, nan), IntEnum members with value 0 and 3, objects defining __int__ / __index__, "
+               "tuples ((0,), (), (3,), (0, 1)), each handed to sys.exit at least once per run of the check. The oracle is unchanged: an "
+               "artefact is written iff the PROCESS exit status observed by the parent is 0. For the model each is replaced by the modelled "
+               "argument with the same (is None, == 0, CPython status) triple, which is all the model reads of an argument; the triple is "
+               "CPython's rule as written down in the table, so the correspondence also checks that rule against the interpreter",
                "file-writing backends: snarkjs, zkinterface (flatbuffers stand-in), qaptools (failing stub binaries: the artefact "
                "observed is pysnark_schedule, written by prove() before the first external tool)"]
 PARTIAL = ["C18_emit_iff_partial: termination events in the well-behaved set (fall off the end, sys.exit(...), uncaught exception, "
@@ -34,6 +40,37 @@ ARTEFACT = {"snarkjs": "witness.wtns", "zkinterface": "computation.zkif", "qapto
 
 ARGS = {"none": "None", "i:0": "0", "i:1": "1", "i:3": "3", "i:256": "256", "i:-1": "-1", "s:1": "'boom'", "s:0": "''",
         "b:1": "True", "b:0": "False", "o:0": "[]", "o:1": "[1]", "f:0": "0.0", "f:1": "2.5"}
+
+# exit arguments of NON-INT types.  key -> (expression, argument CLASS named in violation signatures, the modelled argument that has
+# the same (is None, == 0, CPython exit status) triple - the only three things Model/AtExit.lean reads of an argument).  The status
+# column is CPython's rule, not pysnark's: only None and real `int` objects (bool and IntEnum members are) are a status, every
+# other object is printed and the status is 1 - whatever int() would make of it; a TUPLE handed to sys.exit is unpacked into the
+# SystemExit constructor ((0,) and () leave with 0, (3,) with 3, (0, 1) is printed).  -0.0 is the recorded float zero (class f:0).
+_ENUM = "__import__('enum').IntEnum('Code', {'OK': 0, 'FAILED': 3})"
+NONINT = {
+    "sd:0": ("'0'", "s:digits", "s:1"), "sd:00": ("'00'", "s:digits", "s:1"), "sd:ws": ("' 0\\n'", "s:digits", "s:1"),
+    "sd:+0": ("'+0'", "s:digits", "s:1"), "sd:_": ("'0_0'", "s:digits", "s:1"), "sd:u": ("'\\u0660'", "s:digits", "s:1"),
+    "sd:7": ("'7'", "s:digits", "s:1"),
+    "y:0": ("b'0'", "bytes", "o:1"), "y:e": ("b''", "bytes", "o:0"),
+    "f:q": ("0.25", "f:frac", "f:1"), "f:-q": ("-0.5", "f:frac", "f:1"), "f:1.5": ("1.5", "f:1", "f:1"), "f:-0": ("-0.0", "f:0", "f:0"),
+    "f:inf": ("float('inf')", "f:nonfinite", "f:1"), "f:nan": ("float('nan')", "f:nonfinite", "f:1"),
+    "ie:0": (_ENUM + ".OK", "intenum:0", "i:0"), "ie:3": (_ENUM + ".FAILED", "intenum:n", "i:3"),
+    "oi:0": ("type('Status', (), {'__int__': lambda self: 0})()", "obj:__int__", "o:1"),
+    "oi:3": ("type('Status', (), {'__int__': lambda self: 3})()", "obj:__int__", "o:1"),
+    "ox:0": ("type('Status', (), {'__index__': lambda self: 0})()", "obj:__index__", "o:1"),
+    "t:0": ("(0,)", "t:0", "i:256"), "t:e": ("()", "t:0", "i:256"), "t:3": ("(3,)", "t:n", "i:3"), "t:2": ("(0, 1)", "t:many", "o:1"),
+}
+ARGS.update({k: v[0] for k, v in NONINT.items()})
+
+
+def arg_class(a):
+    return NONINT[a][1] if a in NONINT else a
+
+
+def model_term(t):
+    """the termination event as the model's line protocol knows it"""
+    kind, _, a = t.partition("=")
+    return f"{kind}={NONINT[a][2]}" if a in NONINT else t
 
 
 def term_src(term):
@@ -145,8 +182,8 @@ def run_one(job):
 
 def gen(rnd, nq):
     terms = ["fall", "sysexit", "uncaught", "kbd", "osexit=0", "osexit=5"] + \
-            [f"sysexit={a}" for a in ARGS] + [f"raise={a}" for a in ("none", "i:0", "i:3", "s:1", "b:1")] + \
-            [f"builtin={a}" for a in ("none", "i:0", "i:1", "i:3")]
+            [f"sysexit={a}" for a in ARGS if a not in NONINT] + [f"raise={a}" for a in ("none", "i:0", "i:3", "s:1", "b:1")] + \
+            [f"builtin={a}" for a in ("none", "i:0", "i:1", "i:3")] + [f"sysexit={a}" for a in NONINT]
     out = []
     for t in terms:                                   # every termination mode at least once
         n = rnd.randrange(1, 4); k = n if t == "fall" else rnd.randrange(0, n + 1)
@@ -176,6 +213,7 @@ def explore(ctx, extended=False, focus=None):
     ex = Exploration()
     ex.rule = ("scripts = k traced operations, a termination event, n-k unreachable operations, optional earlier caught sys.exit calls; "
                "every termination mode (fall off the end; sys.exit with no argument/None/0/non-zero/256/-1/str/''/True/False/[]/[1]/0.0/2.5; "
+               "sys.exit with digit strings/bytes/fractional, negative-zero and non-finite floats/IntEnum members/objects with __int__ or __index__/tuples; "
                "raise SystemExit; builtin exit; uncaught exception; KeyboardInterrupt; os._exit) at least once, then random combinations "
                "with position, autoprove on/off and caught exits, on each file-writing backend; distinct = (autoprove, n, k, caught, "
                "termination, backend)")
@@ -188,7 +226,7 @@ def explore(ctx, extended=False, focus=None):
             meta.append((ap, n, k, caught, t, be, env, imps))
     with cf.ThreadPoolExecutor(14) as pool:
         outs = list(pool.map(run_one, jobs))
-    lines = [f"X|x{i}|{ap}|0|{n}|{k}|{','.join(caught)}|{t}" for i, (ap, n, k, caught, t, be, env, imps) in enumerate(meta)]
+    lines = [f"X|x{i}|{ap}|0|{n}|{k}|{','.join(caught)}|{model_term(t)}" for i, (ap, n, k, caught, t, be, env, imps) in enumerate(meta)]
     ml = common.lean_driver(lines)
     for (ap, n, k, caught, t, be, env, imps), o, m in zip(meta, outs, ml):
         ex.evaluations += 1
@@ -213,12 +251,15 @@ def explore(ctx, extended=False, focus=None):
             ex.disagreements.append({"script": (ap, n, k, caught, t, be, env, imps), "impl": impl, "model": model, "stderr": o["stderr"][-300:]})
         else:
             ex.traces_validated += 1
-        sig = {"term": t.split("=")[0], "arg": t.split("=")[1] if "=" in t else "", "caught": bool(caught), "autoprove": ap,
+        sig = {"term": t.split("=")[0], "arg": arg_class(t.split("=")[1]) if "=" in t else "", "caught": bool(caught), "autoprove": ap,
                "env": env or "none"}
         if imps:
             sig["imports"] = import_class(imps)
         rep = {"autoprove": ap, "n": n, "k": k, "caught": caught, "term": t, "backend": be, "env": env, "observed": impl,
                "script": script_src(ap, n, k, caught, t, env, imps), "imports": imps, "standins": [m for _, c, m in imps if c == "stand-in"]}
+        if "=" in t and t.split("=")[1] in NONINT:
+            ex.count(f"exit-argument-class:{arg_class(t.split('=')[1])}")
+            t = f"{t} [{term_src(t)}]"
         if ap:
             if emitted and status != 0:
                 ex.violations.append(Violation(dict(sig, dev="emitted-with-failing-status"),
@@ -245,7 +286,7 @@ def explore(ctx, extended=False, focus=None):
                 ex.violations.append(Violation(dict(sig, dev="hook-fails"),
                                                f"{t}: with autoprove off the exit hook raises AttributeError (backend.process_snark)", rep))
         if len(ex.samples) < 5:
-            ex.samples.append({"script": script_src(ap, n, k, caught, t, env, imps), "backend": be, "observed": impl})
+            ex.samples.append({"script": rep["script"], "backend": be, "observed": impl})
     return ex
 
 
